@@ -3,7 +3,7 @@
 //! into structured arguments so that coverage feedback steers the history, not input validation.
 
 use crate::ap::*;
-use crate::checks::{c04, c05, c09};
+use crate::checks::{c04, c05, c06, c07, c08, c09, c12, c13, c14, c15, c19};
 use crate::conn::*;
 use crate::engine::{Fail, Stats, R};
 use crate::hist::History;
@@ -111,12 +111,25 @@ fn alias(u: &mut U) -> AliasMode {
     }
 }
 
+/// which part of the history space a check's oracle is defined on (mirrors the check's own proptest strategy)
+#[derive(Clone, Copy)]
+pub struct Domain {
+    pub hostile: bool,
+    pub undetermined: bool,
+    pub v5_only: bool,
+}
+
 /// decode bytes into a connection history over the op alphabet of scn.rs
 pub fn decode_history(data: &[u8]) -> History {
+    decode_history_in(data, Domain { hostile: true, undetermined: true, v5_only: false })
+}
+
+pub fn decode_history_in(data: &[u8], dom: Domain) -> History {
     let mut u = U::new(data);
     let role = u.pick(&[Role::Client, Role::Server, Role::Any]);
     let ver = u.pick(&[CVer::V311, CVer::V5, CVer::V5, CVer::Undetermined]);
-    let ver = if ver == CVer::Undetermined && role == Role::Client { CVer::V5 } else { ver };
+    let ver = if ver == CVer::Undetermined && (role == Role::Client || !dom.undetermined) { CVer::V5 } else { ver };
+    let ver = if dom.v5_only { CVer::V5 } else { ver };
     let idw = u.pick(&[2usize, 2, 2, 4]);
     let cfg = ConnCfg { role, ver, idw };
     let mut ops = Vec::new();
@@ -156,6 +169,9 @@ pub fn decode_history(data: &[u8]) -> History {
             26 => Op::Chunk(u.pick(&[0u8, 1, 2, 3, 7])),
             27 => Op::Auth { rc: u.u8() % 3 },
             28 => Op::PeerAuth { rc: u.u8() % 3 },
+            29 if !dom.hostile => Op::PeerUnsubscribe { id: (u.u8() % 6) as u32, n: u.u8() % 3 },
+            30 if !dom.hostile => Op::Unsuback { sel: sel(&mut u) },
+            31 if !dom.hostile => Op::PeerPublish { qos: 2, id: sel(&mut u), dup: true, topic: u.u8() % 4, alias: AliasMode::None, plen: u.u8() % 6 },
             _ => {
                 let n = (u.u8() % 24) as usize + 1;
                 Op::PeerRaw(u.take(n).to_vec())
@@ -163,21 +179,60 @@ pub fn decode_history(data: &[u8]) -> History {
         };
         ops.push(op);
     }
-    History { cfg, ops }
+    History { cfg, ops, disciplined: !dom.hostile }
 }
 
-/// C05: the history is decoded from the bytes; the robustness monitor decides
-pub fn conn_target(data: &[u8]) -> R {
+/// the history-level checks that can sit behind the connection fuzz target, with their domains
+pub const CONN_CHECKS: [&str; 10] = ["C05", "C06", "C07", "C08", "C12", "C13", "C14", "C15", "C19", "ALL"];
+
+fn domain_of(check: &str) -> Domain {
+    match check {
+        "C05" | "C19" => Domain { hostile: true, undetermined: true, v5_only: false },
+        "C08" | "C15" => Domain { hostile: false, undetermined: true, v5_only: false },
+        "C12" | "C13" | "C14" => Domain { hostile: false, undetermined: false, v5_only: true },
+        _ => Domain { hostile: false, undetermined: false, v5_only: false },
+    }
+}
+
+/// the history is decoded from the bytes; the monitor / model of the selected property decides
+pub fn conn_target_for(check: &str, data: &[u8]) -> R {
     if data.len() < 4 {
         return Ok(());
     }
-    let h = decode_history(data);
+    let h = decode_history_in(data, domain_of(check));
     let mut st = Stats::default();
-    c05::test(&h, &mut st)
+    match check {
+        "C05" => c05::test(&h, &mut st),
+        "C06" => c06::test(&h, &mut st),
+        "C07" => c07::test(&h, &mut st),
+        "C08" => c08::test(&h, &mut st),
+        "C12" => c12::test(&h, &mut st),
+        "C13" => c13::test(&h, &mut st),
+        "C14" => c14::test(&h, &mut st),
+        "C15" => c15::test(&h, &mut st),
+        "C19" => c19::test(&h, &mut st),
+        _ => Ok(()),
+    }
 }
 
-pub fn tolerated(_f: &Fail) -> bool {
-    false
+/// the property whose oracle the connection target applies: VERIF_FZ_CHECK (default C05)
+pub fn selected_check() -> &'static str {
+    static SEL: std::sync::OnceLock<String> = std::sync::OnceLock::new();
+    SEL.get_or_init(|| std::env::var("VERIF_FZ_CHECK").unwrap_or_else(|_| "C05".into())).as_str()
+}
+
+pub fn conn_target(data: &[u8]) -> R {
+    conn_target_for(selected_check(), data)
+}
+
+/// failures listed as open known findings are tolerated inside the target so that a campaign continues behind them
+pub fn tolerated(f: &Fail) -> bool {
+    static KNOWN: std::sync::OnceLock<Vec<crate::findings::Finding>> = std::sync::OnceLock::new();
+    let k = KNOWN.get_or_init(|| {
+        let dir = std::env::var("VERIF_DIR").map(std::path::PathBuf::from).unwrap_or_else(|_| std::path::PathBuf::from("/verif"));
+        crate::findings::load(&dir)
+    });
+    k.iter().any(|k| k.open && k.rule == f.rule && k.sig == f.sig)
 }
 
 pub fn run_target(name: &str, data: &[u8]) -> Option<R> {
@@ -185,6 +240,7 @@ pub fn run_target(name: &str, data: &[u8]) -> Option<R> {
         "fz_decode" => Some(decode_target(data)),
         "fz_chunk" => Some(chunk_target(data)),
         "fz_conn" => Some(conn_target(data)),
+        t if t.starts_with("fz_conn:") => Some(conn_target_for(&t[8..], data)),
         _ => None,
     }
 }
